@@ -35,6 +35,43 @@
 /* Private definitions                                                        */
 /*============================================================================*/
 
+/**
+ * Multiplies a fixed point by a scalar with the given algorithm, reducing the
+ * scalar modulo the group order when it is longer than the order: the tables
+ * and recodings cover the bit length of the order only.
+ *
+ * @param[out] r			- the result.
+ * @param[in] t				- the precomputation table.
+ * @param[in] k				- the scalar given by the caller.
+ * @param[in] fix			- the fixed-base algorithm.
+ */
+static void eb_mul_fix_red(eb_t r, const eb_t *t, const bn_t k,
+		void (*fix)(eb_t, const eb_t *, const bn_t)) {
+	bn_t n, m;
+
+	bn_null(n);
+	bn_null(m);
+
+	RLC_TRY {
+		bn_new(n);
+		bn_new(m);
+		eb_curve_get_ord(n);
+		if (bn_bits(k) > bn_bits(n)) {
+			bn_mod(m, k, n);
+			fix(r, t, m);
+		} else {
+			fix(r, t, k);
+		}
+	}
+	RLC_CATCH_ANY {
+		RLC_THROW(ERR_CAUGHT);
+	}
+	RLC_FINALLY {
+		bn_free(n);
+		bn_free(m);
+	}
+}
+
 #if EB_FIX == LWNAF || !defined(STRIP)
 
 #if defined(EB_KBLTZ)
@@ -178,7 +215,7 @@ void eb_mul_pre_basic(eb_t *t, const eb_t p) {
 	}
 }
 
-void eb_mul_fix_basic(eb_t r, const eb_t *t, const bn_t k) {
+static void eb_mul_fix_basic_imp(eb_t r, const eb_t *t, const bn_t k) {
 	if (bn_is_zero(k)) {
 		eb_set_infty(r);
 		return;
@@ -194,6 +231,10 @@ void eb_mul_fix_basic(eb_t r, const eb_t *t, const bn_t k) {
 	if (bn_sign(k) == RLC_NEG) {
 		eb_neg(r, r);
 	}
+}
+
+void eb_mul_fix_basic(eb_t r, const eb_t *t, const bn_t k) {
+	eb_mul_fix_red(r, t, k, eb_mul_fix_basic_imp);
 }
 
 #endif
@@ -238,7 +279,7 @@ void eb_mul_pre_combs(eb_t *t, const eb_t p) {
 	}
 }
 
-void eb_mul_fix_combs(eb_t r, const eb_t *t, const bn_t k) {
+static void eb_mul_fix_combs_imp(eb_t r, const eb_t *t, const bn_t k) {
 	int i, j, l, w, n, p0, p1;
 	bn_t ord;
 
@@ -296,6 +337,10 @@ void eb_mul_fix_combs(eb_t r, const eb_t *t, const bn_t k) {
 	}
 }
 
+void eb_mul_fix_combs(eb_t r, const eb_t *t, const bn_t k) {
+	eb_mul_fix_red(r, t, k, eb_mul_fix_combs_imp);
+}
+
 #endif
 
 #if EB_FIX == COMBD || !defined(STRIP)
@@ -344,7 +389,7 @@ void eb_mul_pre_combd(eb_t *t, const eb_t p) {
 	}
 }
 
-void eb_mul_fix_combd(eb_t r, const eb_t *t, const bn_t k) {
+static void eb_mul_fix_combd_imp(eb_t r, const eb_t *t, const bn_t k) {
 	int i, j, d, e, w0, w1, n0, p0, p1;
 	bn_t n;
 
@@ -404,6 +449,10 @@ void eb_mul_fix_combd(eb_t r, const eb_t *t, const bn_t k) {
 	}
 }
 
+void eb_mul_fix_combd(eb_t r, const eb_t *t, const bn_t k) {
+	eb_mul_fix_red(r, t, k, eb_mul_fix_combd_imp);
+}
+
 #endif
 
 #if EB_FIX == LWNAF || !defined(STRIP)
@@ -415,13 +464,13 @@ void eb_mul_pre_lwnaf(eb_t *t, const eb_t p) {
 void eb_mul_fix_lwnaf(eb_t r, const eb_t *t, const bn_t k) {
 #if defined(EB_KBLTZ)
 	if (eb_curve_is_kbltz()) {
-		eb_mul_fix_kbltz(r, t, k);
+		eb_mul_fix_red(r, t, k, eb_mul_fix_kbltz);
 		return;
 	}
 #endif
 
 #if defined(EB_PLAIN)
-	eb_mul_fix_plain(r, t, k);
+	eb_mul_fix_red(r, t, k, eb_mul_fix_plain);
 #endif
 }
 #endif
